@@ -27,6 +27,7 @@ type chunkReader struct {
 	cuts []int // sorted offsets; a Read never crosses one
 	pos  int
 	one  bool // one byte per Read
+	step int  // > 0: at most step bytes per Read (network segments)
 }
 
 func (c *chunkReader) Read(p []byte) (int, error) {
@@ -36,6 +37,8 @@ func (c *chunkReader) Read(p []byte) (int, error) {
 	end := len(c.data)
 	if c.one {
 		end = c.pos + 1
+	} else if c.step > 0 {
+		end = min(end, c.pos+c.step)
 	} else {
 		for _, k := range c.cuts {
 			if k > c.pos {
@@ -56,6 +59,7 @@ type plan struct {
 	cuts  []int
 	one   bool
 	chunk int // > 0: deliver through a bufconn pair with SetChunk(chunk)
+	step  int // > 0: at most step bytes per Read
 }
 
 var sentinel = []byte(":424242\r\n")
@@ -118,7 +122,7 @@ func source(data []byte, p plan) (io.Reader, func()) {
 		_ = client.SetReadDeadline(time.Now().Add(20 * time.Second))
 		return client, func() { _ = client.Close() }
 	}
-	return &chunkReader{data: data, cuts: p.cuts, one: p.one}, func() {}
+	return &chunkReader{data: data, cuts: p.cuts, one: p.one, step: p.step}, func() {}
 }
 
 var bufSizes = []int{32, 4096}
